@@ -331,6 +331,13 @@ def run(ctx):
     import pskel as _pskel
     _pskel.rule_P_PRIM(ctx)
     _pskel.rule_P_SKELETON(ctx)
+    # naming-law lints over the modules this property lives in (sibling slips: truth<->budget, stamp<->punctuation, left<->right, swapped arguments)
+    import roles as _roles
+    _roles.rule_R_ROLE(ctx, modules=('conversion::string::impl_enum', 'conversion::string::common', 'enum_narsese::'))
+    _roles.rule_A_NAMES(ctx, modules=('conversion::string::impl_enum', 'conversion::string::common', 'enum_narsese::'))
+    # every formatter function against its reviewed emission skeleton
+    import emit as _emit
+    _emit.rule_F_SKELETON_ALL(ctx)
     ctx.undecided = ["that parsed and original values compare equal for all values (depends on C06 and on run-time data)",
                      "nesting-dependent ambiguity; name well-formedness side conditions"]
     ctx.assumptions = ["f64 Display emits only digits and '.' for finite values in [0,1] (std guarantee)",
